@@ -81,6 +81,8 @@ def run(ctx):
     ctx.assume("explicit unwraps on VM invariants (operand stack discipline) are outside the decided clauses")
     from .c01_slices import check_str_slices
     check_str_slices(ctx, ctx.program("MAX"))
+    from .c01_unwraps import check_unwraps
+    check_unwraps(ctx, ctx.program("MAX"))
     for cname in ctx.configs():
         prog = ctx.program(cname)
         tag = "" if cname == "MAX" else "[%s]" % cname
